@@ -82,7 +82,7 @@ func maybeGC() {
 
 // StateOp is one valid operation of the descriptor-table prefix.
 type StateOp struct {
-	Op      string `json:"op"`                // open | close | closefd | renumber | accept | readdir | setflags | seek
+	Op      string `json:"op"`                // open | close | closefd | fill | renumber | accept | readdir | setflags | seek
 	Dir     int32  `json:"dir,omitempty"`     // open: directory descriptor (a preopen)
 	Path    string `json:"path,omitempty"`    // open
 	Oflags  uint32 `json:"oflags,omitempty"`  // open
@@ -90,13 +90,14 @@ type StateOp struct {
 	Fdflags uint32 `json:"fdflags,omitempty"` // open, setflags, accept
 	Sel     int    `json:"sel,omitempty"`     // index (mod count) into the descriptors opened so far
 	To      int32  `json:"to,omitempty"`      // renumber target; closefd: the standard stream (0..2) to close
-	N       uint32 `json:"n,omitempty"`       // readdir: buffer length; seek: offset
+	N       uint32 `json:"n,omitempty"`       // readdir: buffer length; seek: offset; fill: number of descriptors in use afterwards
 }
 
 // Piece is a part of the guest memory image.
 type Piece struct {
 	Off uint32 `json:"off"`
 	Hex string `json:"hex"`
+	Rep uint32 `json:"rep,omitempty"` // the bytes are written Rep times back to back (0 = once)
 }
 
 // Case is one evaluated case.
@@ -196,6 +197,9 @@ type world struct {
 	size  uint32
 	open  []int32 // descriptors opened by the prefix and still believed open
 	fns   map[string]api.Function
+
+	modClosed bool
+	probeFail string // a probe call (valid arguments) that ended in a Go runtime error
 }
 
 // The temp-dir tree every case starts from.
@@ -446,11 +450,24 @@ func setup(c *Case) (*world, error) {
 	return nil, fmt.Errorf("instantiate: %v", lastErr)
 }
 
+// closeModule closes the guest (once); a panic escaping Close is returned as text.
+func (w *world) closeModule() (panicked string) {
+	if w.p == nil || w.modClosed {
+		return ""
+	}
+	w.modClosed = true
+	defer func() {
+		if r := recover(); r != nil {
+			panicked = fmt.Sprint(r)
+		}
+	}()
+	w.p.Mod.Close(bg)
+	return ""
+}
+
 func (w *world) close() {
 	defer maybeGC()
-	if w.p != nil {
-		w.p.Mod.Close(bg)
-	}
+	w.closeModule()
 	for _, c := range w.conns {
 		c.Close()
 	}
@@ -549,6 +566,19 @@ func (w *world) prefix() {
 					w.drop(fd)
 				}
 			}
+		case "fill": // open files until descriptors 0..N-1 are all in use (the table is exactly full at 64, 128)
+			m.Write(scrPath, []byte("f0"))
+			for k := 0; k < 140; k++ {
+				e, o := w.call("path_open", fdTmp, 1, scrPath, 2, 0, 2, 0, 0, scrRes)
+				if o.Kind != wz.KOK || e != 0 {
+					break
+				}
+				fd, _ := m.ReadUint32Le(scrRes)
+				w.open = append(w.open, int32(fd))
+				if fd+1 >= op.N {
+					break
+				}
+			}
 		case "closefd": // close a standard stream (valid: a guest may close its stdio)
 			if op.To >= 0 && op.To <= 2 {
 				if e, o := w.call("fd_close", uint64(op.To)); o.Kind == wz.KOK && e == 0 {
@@ -622,6 +652,15 @@ func (i fdInfo) String() string {
 		binary.LittleEndian.Uint16(i.Stat[2:]), i.FstErr, i.TellErr)
 }
 
+// pcall is call for probes: their arguments are valid, so a Go runtime error is itself a finding.
+func (w *world) pcall(name string, args ...uint64) (uint32, wz.Outcome) {
+	e, o := w.call(name, args...)
+	if o.Kind == wz.KInternal && w.probeFail == "" {
+		w.probeFail = fmt.Sprintf("%s(fd=%d, ...) with valid arguments raised a Go runtime error in the host: %s", name, int32(uint32(args[0])), o.Detail)
+	}
+	return e, o
+}
+
 func errOf(e uint32, o wz.Outcome) uint32 {
 	if o.Kind != wz.KOK {
 		return noCall
@@ -632,17 +671,17 @@ func errOf(e uint32, o wz.Outcome) uint32 {
 func (w *world) probeOne(fd int32) fdInfo {
 	var in fdInfo
 	u := uint64(uint32(fd))
-	in.Adv = errOf(w.call("fd_advise", u, 0, 0, 0))
+	in.Adv = errOf(w.pcall("fd_advise", u, 0, 0, 0))
 	if !in.present() || w.size < 128 {
 		return in
 	}
-	in.StatErr = errOf(w.call("fd_fdstat_get", u, 0))
+	in.StatErr = errOf(w.pcall("fd_fdstat_get", u, 0))
 	if in.StatErr == 0 {
 		b, _ := w.p.Mem.Read(0, 24)
 		copy(in.Stat[:], b)
 	}
-	in.FstErr = errOf(w.call("fd_filestat_get", u, 32))
-	in.TellErr = errOf(w.call("fd_tell", u, 32))
+	in.FstErr = errOf(w.pcall("fd_filestat_get", u, 32))
+	in.TellErr = errOf(w.pcall("fd_tell", u, 32))
 	return in
 }
 
@@ -696,6 +735,9 @@ func (w *world) initMem(c *Case) {
 		b, err := hex.DecodeString(p.Hex)
 		if err != nil {
 			continue
+		}
+		if p.Rep > 1 {
+			b = bytes.Repeat(b, int(min(p.Rep, 1<<16)))
 		}
 		if uint64(p.Off)+uint64(len(b)) <= uint64(len(m)) {
 			copy(m[p.Off:], b)
@@ -787,6 +829,19 @@ func fmtArgs(fn *wasiabi.Func, args []uint64) string {
 
 // runCall executes the hostile call of the case in the prepared world and applies the oracles.
 func (w *world) runCall(c *Case) (r result) {
+	r = w.runCallInner(c)
+	if r.Msg == "" && r.Harness == "" && w.probeFail != "" {
+		r.Msg = fmt.Sprintf("around %s(%#x) [engine=%s pages=%d] the descriptor table is corrupt: %s", c.Fn, c.Args, c.Engine, c.Pages, w.probeFail)
+	}
+	if r.Msg == "" && r.Harness == "" {
+		if p := w.closeModule(); p != "" {
+			r.Msg = fmt.Sprintf("after %s(%#x) [engine=%s pages=%d] closing the module panicked: %s", c.Fn, c.Args, c.Engine, c.Pages, p)
+		}
+	}
+	return r
+}
+
+func (w *world) runCallInner(c *Case) (r result) {
 	fn := wasiabi.ByName[c.Fn]
 	if fn == nil || len(c.Args) != len(fn.Params) {
 		r.Msg = "harness: malformed case"
